@@ -53,7 +53,7 @@ func actProduct() []actCase {
 		}
 		return base
 	}
-	kindSets := [][3]string{{"sock", "sock", "sock"}, {"file", "sock", "pipe"}, {"pipe", "file", "sock"}, {"sock", "pipe", "file"}}
+	kindSets := [][3]string{{"sock", "sock", "sock"}, {"file", "sock", "pipe"}, {"pipe", "file", "sock"}, {"sock", "pipe", "file"}, {"tcp", "sock", "tcp"}}
 	for _, pm := range pidModes {
 		for _, fv := range fdsVals {
 			n := 0
@@ -79,7 +79,7 @@ func actProduct() []actCase {
 }
 
 func (g *Rng) actRandom() actCase {
-	c := actCase{kinds: [3]string{g.Pick([]string{"sock", "file", "pipe"}), g.Pick([]string{"sock", "file", "pipe"}), g.Pick([]string{"sock", "file", "pipe"})}}
+	c := actCase{kinds: [3]string{g.Pick([]string{"sock", "file", "pipe", "tcp"}), g.Pick([]string{"sock", "file", "pipe", "tcp"}), g.Pick([]string{"sock", "file", "pipe", "tcp"})}}
 	switch g.Intn(6) {
 	case 0:
 		c.pidMode = "other"
@@ -123,6 +123,7 @@ func runActCase(c actCase, dir string) (obs string, pid int, pidEnv *string, err
 	var files []*os.File
 	var closers []func()
 	addrOf := map[string]string{}
+	tcpAddrs := map[string]bool{}
 	for i, k := range c.kinds {
 		switch k {
 		case "sock":
@@ -139,6 +140,20 @@ func runActCase(c actCase, dir string) (obs string, pid int, pidEnv *string, err
 			files = append(files, f)
 			closers = append(closers, func() { l.Close(); f.Close() })
 			addrOf[p] = fmt.Sprintf("fd%d", 3+i)
+		case "tcp":
+			// a listening socket of another family: just as much "the inherited listening socket"
+			l, err := net.Listen("tcp", "127.0.0.1:0")
+			if err != nil {
+				return "", 0, nil, err
+			}
+			f, err := l.(*net.TCPListener).File()
+			if err != nil {
+				return "", 0, nil, err
+			}
+			files = append(files, f)
+			closers = append(closers, func() { l.Close(); f.Close() })
+			addrOf[l.Addr().String()] = fmt.Sprintf("fd%d", 3+i)
+			tcpAddrs[l.Addr().String()] = true
 		case "file":
 			f, err := os.Create(filepath.Join(dir, fmt.Sprintf("f%d", 3+i)))
 			if err != nil {
@@ -237,7 +252,11 @@ func runActCase(c actCase, dir string) (obs string, pid int, pidEnv *string, err
 	// GetInfo round trip on the endpoint the child says it serves
 	ctx, cancel := context.WithTimeout(context.Background(), 5*time.Second)
 	defer cancel()
-	conn, err := varlink.NewConnection(ctx, "unix:"+addr)
+	scheme := "unix:"
+	if tcpAddrs[addr] {
+		scheme = "tcp:"
+	}
+	conn, err := varlink.NewConnection(ctx, scheme+addr)
 	if err != nil {
 		return "childerr:dial-failed", pid, pidEnv, nil
 	}
